@@ -356,7 +356,7 @@ def times_family(prop, tier, runs, assumptions_extra, take_props=None, extra=Non
                 raise MachineryError(f"{v['key']}: {v['what']}")
             if v["prop"] in take_props:
                 mine.append({"key": v["key"], "what": v["what"], "engine": "e3", "args": m["args"][:3] + [a for a in m["args"] if a == "@nodbg"],
-                             "case": {"history": v["history"], "n": v.get("n"), "step": v["step"]}})
+                             "case": {"history": v["history"], "n": v.get("n"), "step": v["step"], "big_script": v.get("big_script")}})
         for (p, k), n in m["counts"].items():
             have = [v for v in mine if v["key"] == k]
             if have and n > len(have):
@@ -417,7 +417,7 @@ def c07_arm_matrix(tier, mi):
 
 
 def check_c07(tier):
-    runs = times_runs(tier, [0, 1, 2], 7, 9) + times_runs(tier, [1], 6, 8, threads=True)
+    runs = times_runs(tier, [0, 1, 2], 7, 9) + times_runs(tier, [1], 6, 8, threads=True) + big_runs(tier)[:3]
     return times_family("C07", tier, runs,
                         ["a mismatch with the reference model is attributed to C07 when it occurs in a lifetime that follows earlier use of the same fake! source line, to C06 when it occurs in the first lifetime of a fresh process"],
                         extra=c07_arm_matrix)
@@ -435,8 +435,17 @@ def c06_concurrent(tier, mi):
     return viols, cov, E2_ASSUME + ["symmetry reduction (8/16 identical single-call threads): a choice between not-yet-started threads with identical bodies considers the lowest id only; the oracle is a function of the multiset of per-thread observations"]
 
 
+BIG_BUDGETS = [255, 256, 257, 65535, 65536, 65537]
+
+
+def big_runs(tier):
+    """Long lifetimes around budgets next to 2^8 and 2^16 (thorough: 2^20 as well): exactly N calls, one more,
+    one fewer, two lifetimes, N after an unwound lifetime, an over-call that propagates."""
+    return [["times", "--n", str(n), "--big"] for n in BIG_BUDGETS + ([1048575, 1048576, 1048577] if tier == "thorough" else [])]
+
+
 def check_c06(tier):
-    runs = times_runs(tier, [0, 1, 2, 3], 6, 9)
+    runs = times_runs(tier, [0, 1, 2, 3], 6, 9) + big_runs(tier)
     return times_family("C06", tier, runs, ["a mismatch in the first lifetime of a fresh process is attributed to C06, in a later lifetime to C07"], extra=c06_concurrent)
 
 
@@ -746,7 +755,7 @@ def e2_viols(raw, check, keymap=None):
 E2_ASSUME = [
     "scheduled mount: std::sync:: paths of the repository sources resolve to vstd::sync (scheduling-point wrappers around the real std Mutex and atomics; real poisoning, real unwinding on real OS threads); rule R2 match count is in coverage.mount.rules_sched",
     "interleavings are explored at the granularity of synchronisation operations and OS calls of the crate (sequentially consistent); data the crate touches outside its mutex is code memory, whose protocol is C17's subject",
-    "threads that call a function while another thread patches it without holding a guard are outside the crate's documented contract and not generated",
+    "threads that call the function being patched while another thread patches it, without holding a guard, are outside the crate's documented contract and not generated (a guard-less thread calling a *different*, never-faked function on the same code page is generated: C03 bystander scenario)",
 ]
 
 
